@@ -6,6 +6,13 @@ props=[json.loads(l)['id'] for l in open('/verif/properties.jsonl')]
 LEVEL="bounded symbolic model checking of ggql's SSA (go/ssa of /repo's working tree, rebuilt on every run): every feasible path of each harness is explored, every branch on a symbolic condition, every implicit run-time check and every assertion is decided by z3 over all values of the symbolic inputs within the bounds written in the harness; counterexamples are replayed against the natively compiled ggql before they are reported"
 NOTE="trusted: go/ssa lowering, the engine's instruction semantics (cross-validated against native runs on sampled paths in every run), the environment models listed in each evidence file (DESIGN.md 3.3), z3 4.8.12, the harness oracles under /verif/harness/props; nothing outside the bounds stated in the evidence is claimed"
 claimed={
+ "C01":("DESIGN.md section 5 C01","symbolic execution of ParseExecutable+ResolveExecutable over a bounded request-shape grammar (E) with symbolic aliases, leaf values, null-ness and operation names (S); oracle = independent reference executor compared by one solver term (DeepEqual); native replay"),
+ "C06":("DESIGN.md section 5 C06","symbolic execution of the resolver with every single resolver invocation made to fail in turn (E failAt over the reference walk), error path and partial data compared with a harness-computed expectation; z3 decides alias collisions and leaf values"),
+ "C07":("DESIGN.md section 5 C07","symbolic execution of Resolve* and the JSON writer: envelope predicate over all byte strings up to N bytes and invalid-request families, reference JSON reader over the serialised text, error locations over symbolic separator layouts"),
+ "C09":("DESIGN.md section 5 C09","symbolic execution of skipSel/resolveSels over all arrangements (E) of @skip/@include forms with symbolic truth values (S); inclusion formula decided by z3"),
+ "C10":("DESIGN.md section 5 C10","symbolic execution of request validation/resolution with one undefined thing injected (E case) whose name is symbolic bytes (S); message containment and resolver-call log decided by z3"),
+ "C11":("DESIGN.md section 5 C11","symbolic execution of repeated ResolveExecutable on one parsed executable (E histories, S variable values) compared call by call with fresh parses"),
+ "C18":("DESIGN.md section 5 C18","symbolic execution of the value writers and ParseValue over symbolic strings (all byte values), E value trees with S leaves, reference JSON reader; round-trip equalities decided by z3"),
  "C03":("DESIGN.md section 5 C03","symbolic execution of the SSA of both parsers, the value reader/writers and the resolver over all byte strings up to N bytes, hole templates with symbolic bytes, hostile request families x three strategies, symbolic reader fault offsets; implicit panic / call-depth / instruction-budget checks decided by z3; native replay"),
  "C05":("DESIGN.md section 5 C05","symbolic execution of the SSA of every scalar CoerceOut with full-width symbolic integers and floats and symbolic strings; SMT (z3) verdicts; native replay of models"),
 }
